@@ -90,7 +90,7 @@ SigmaMid == << <<64>>, <<65>>, <<66>>, <<67>>, <<68>>, <<16, 5>>, <<17, 5, 0>>, 
                <<21, 1, 0, 97>>, <<0>>, <<17, 128>>, <<24, 1, 170>>, <<70, 0, 0, 0, 0, 0, 0, 240, 63>> >>
 \* names only: duplicates / descending / prefix order need name,value,name,value = 4 tokens
 SigmaNames == << <<65>>, <<64>>, <<66>>, <<67>>, <<16, 5>>, <<20, 0>>, <<20, 1, 97>>, <<20, 1, 98>>, <<20, 2, 97, 97>>, <<20, 1, 0>>,
-                 <<20, 1, 128>>, <<20, 2, 97, 0>>, <<21, 128, 0>> \o Rep(97, 128) >>
+                 <<20, 1, 128>>, <<20, 2, 97, 0>>, <<20, 3, 97, 0, 120>>, <<20, 3, 97, 0, 121>>, <<21, 128, 0>> \o Rep(97, 128) >>
 \* tiny alphabet for order violations across a nested container: name,{,},name,value = 5 tokens
 SigmaTiny == << <<20, 1, 97>>, <<20, 1, 98>>, <<64>>, <<65>>, <<66>>, <<67>>, <<68>> >>
 MaxDs123 == {1, 2, 3}
